@@ -83,6 +83,8 @@ def _provenance(lib, ev, body, s, v, fields):
         errb = mir.variant_target(ev.sw_result, body, "Err")
         if errb is None or s.bb not in body.reach_from(errb, avoid={ev.header}):
             return False, "constructed outside the Err arm of the reader call"
+        if pos[3].bb not in body.reach_from(errb, avoid={ev.header}):
+            return False, "buffer_position() is sampled before the failing read, not when the error is reported"
         return True, "(reader.buffer_position(), Err payload of the same read_event_into call) in its Err arm"
     if v == "AttrError":
         err = _err_payload_of(fields[0], ("std::iter::Iterator::next",))
